@@ -256,6 +256,10 @@ class State(object):
                             tuple(self.decisions[:self.dpos]), kind)
             self.ex.obligations.append(ob)
             self.ex.keepalive.append((goal, list(self.pc)))
+        if z3.is_false(g):
+            # a goal that is literally false (e.g. a ghost scope check) is reported but not assumed:
+            # assuming it would make the rest of the path vacuous and hide later failures
+            return
         self.assume(goal)
 
     # ---- heap
